@@ -189,7 +189,9 @@ class InterpreterClass(_instance_base.SimpleValue, class_mixin.Class):
       # nested class can not use the same type parameter
       # in current generic class
       inner_cls_types = self.collect_inner_cls_types()
-      for cls, item in inner_cls_types:
+      for cls, item in sorted(
+          inner_cls_types, key=lambda x: (x[0].full_name, x[1].full_name)
+      ):
         nitem = item.with_scope(
             self.full_name
         )  # pytype: disable=attribute-error
